@@ -92,7 +92,7 @@ PROPS = {
     },
     "C13": {
         "title": "compare/3 implements the standard order of terms",
-        "v_units": ["numcmp", "termcmp", "pstrcmp"], "ob_filter": {"numcmp": [r"^(Number_cmp|Number_partial_cmp)::", r"^lemma::"], "pstrcmp": [r"^(compare_pstr_slices|scan_slice_to_str|pstr_sentinel_length)::", r"^lemma::lemma_cell_split$"]},
+        "v_units": ["numcmp", "termcmp", "pstrcmp"], "ob_filter": {"numcmp": [r"^(Number_cmp|Number_partial_cmp)::", r"^lemma::(?!lemma_dashu)"], "pstrcmp": [r"^(compare_pstr_slices|scan_slice_to_str|pstr_sentinel_length)::", r"^lemma::lemma_cell_split$"]},
         "k_groups": ["order_kernels"], "s_checks": ["atom_ord"],
         "replay": "arith_cmp", "replay_by_unit": {"termcmp": "termorder", "pstrcmp": "heap"}, "sweep": "termorder",
         "level": "proof",
